@@ -4,15 +4,25 @@ import os
 
 import props
 
-EXTRA_CONFIGS = ["default", "nodefault", "nightly"]
+EXTRA_CONFIGS = ["nodefault", "nightly"]      # `all` and `default` are the quick tier
 
 
-def prefetch():
-    """Extract the facts of the extra configurations concurrently (each is one `cargo check`)."""
+def prefetch(configs=None):
+    """Extract the facts of the given configurations concurrently (each is one `cargo check`)."""
     import concurrent.futures as cf
     import facts as factsmod
-    with cf.ThreadPoolExecutor(len(EXTRA_CONFIGS)) as ex:
-        list(ex.map(lambda c: factsmod.extract(c), EXTRA_CONFIGS))
+    configs = configs or EXTRA_CONFIGS
+    with cf.ThreadPoolExecutor(len(configs)) as ex:
+        list(ex.map(lambda c: factsmod.extract(c), configs))
+
+
+def on_config(pid, rule_names, cfg):
+    rs = props.eval_rules(rule_names, cfg, pid)
+    for r in rs:
+        r.rule = "%s@%s" % (r.rule, cfg)
+        for v in r.violations:
+            v.detail = "[feature configuration `%s`] %s" % (cfg, v.detail)
+    return rs
 
 
 def extra(pid, rule_names, base_clean=True):
@@ -26,10 +36,5 @@ def extra(pid, rule_names, base_clean=True):
         import selftest
         res.append(selftest.rule_selftest(pid))
     for cfg in EXTRA_CONFIGS:
-        rs = props.eval_rules(rule_names, cfg, pid)
-        for r in rs:
-            r.rule = "%s@%s" % (r.rule, cfg)
-            for v in r.violations:
-                v.detail = "[feature configuration `%s`] %s" % (cfg, v.detail)
-        res.extend(rs)
+        res.extend(on_config(pid, rule_names, cfg))
     return res
